@@ -462,6 +462,34 @@ def rule_x(repo, run):
     import_rules(run, R, c15, repo, {"C15.R6"}, only=lambda c: c.startswith("ast.PromoteWrap"))
 
 
+def rule_r8(repo, run):
+    R = run.rule("C14.R8", "a declaration consults its own option scope: the parent's options are only used to chain "
+                           "the node's scope to them")
+    n = 0
+    for mn in ("ast", "generate", "wrapc", "wrapf", "wrapp", "wrapl"):
+        m = repo.module(mn)
+        for node in ast.walk(m.tree):
+            if isinstance(node, ast.Attribute) and node.attr == "options" and isinstance(node.ctx, ast.Load):
+                d = pyflow.dotted(node) or ""
+                if not (d == "parent.options" or d.endswith(".parent.options")):
+                    continue
+                n += 1
+                par = getattr(node, "_parent", None)
+                chain = False
+                if isinstance(par, ast.keyword) and par.arg == "parent":
+                    chain = True
+                if isinstance(par, ast.Call) and (pyflow.call_name(par) or "").split(".")[-1] == "Scope" \
+                        and par.args and par.args[0] is node:
+                    chain = True
+                fn = enclosing_function(node)
+                run.check(R, "%s.%s:%s" % (mn, getattr(fn, "_qualname", "<module>"), d), chain,
+                          "options are read from the parent (`%s`) instead of the declaration's own scope: an option set "
+                          "on the declaration itself is ignored although the same option on its container works"
+                          % m.seg(getattr(par, "_parent", par) if isinstance(par, ast.keyword) else par)[:70], m.loc(node),
+                          sample=dict(where=getattr(fn, "_qualname", "<module>"), read=d))
+    run.floor(R, "reads of a parent's options", n, 6)
+
+
 def run(repo, run, tier):
     rule_r1(repo, run)
     rule_r2(repo, run)
@@ -470,3 +498,4 @@ def run(repo, run, tier):
     rule_r5(repo, run)
     rule_r6(repo, run)
     rule_x(repo, run)
+    rule_r8(repo, run)
